@@ -132,6 +132,14 @@ CHECKS = {
         note=_STATIC_NOTE + " Not decided: equality of the evaluated object for all values (NaN, user-defined __repr__).",
         technique="static analysis: CFG dominance, def-use agreement between emission and import construction, totality over container kinds",
     ),
+    "C12": dict(
+        text="Static discharge of determinism by construction: discovery of every iteration/listing of hash-ordered sets in the generator scope with a frozen table of "
+        "confirmed order-insensitive consumers and checked sanitizer conditions; identity-only discipline for id()-derived values incl. cleared/renumbered sequences; "
+        "sorted source listings; clock/random/environment sources; scheduling of the renumbering; agreement of invocation routes.",
+        design_ref="DESIGN.md section 4 C12",
+        note=_STATIC_NOTE + " One known finding (F11: timestamp in the optional file header). Not decided: byte identity itself (the generator cannot run here).",
+        technique="static analysis: unordered-iteration and id() taint to order-sensitive sinks, scheduling/ordering check on the pipeline table, who-may-emit rule",
+    ),
 }
 
 NOT_APPLICABLE = [
